@@ -318,6 +318,8 @@ func Text(class string, rng *rand.Rand) string {
 		return "nul\x00inside"
 	case "ctl":
 		return "bell\x07 and escape\x1b and del\x7f"
+	case "ctlonly": // control characters other than NUL, TAB, CR, LF and DEL, and nothing else that is special in a file name
+		return "re\x1b[2Jport\x07\x01\x0b\x1f.txt"
 	case "quotes":
 		return `say "hi" \ back(slash) <angle> ; = ? :`
 	case "encword":
